@@ -384,3 +384,10 @@ M('c13_drift_memo_ignores_species', 'C13', (TR, "        return np.mean(displace
 M('c10_n_paths_energy_of_first', 'C10', (PA, "        path_energy = [F_graph.nodes[node]['energy'] for node in path]\n        list_of_paths.append(Pathway(sites=path, energy=path_energy))", "        path_energy = [F_graph.nodes[node]['energy'] for node in path]\n        list_of_paths.append(Pathway(sites=path, energy=list(best_path.energy)[: len(path)] + path_energy[len(best_path.energy):]))"))
 M('c08_site_to_voxel_cartesian', 'C08', (V, "        return self.frac_coords_to_voxel(site.frac_coords)\n", "        return self.frac_coords_to_voxel(site.coords / np.array(self.lattice.abc))\n"))
 M('c08_cart_coords_row_convention', 'C08', (V, "        return self.lattice.get_cartesian_coords(frac_coords)\n", "        return np.dot(self.lattice.matrix, np.asarray(frac_coords).T).T\n"))
+# ---- classes found in seed round 12 (thresholds of value, not of size; the size-threshold ones need the seeds) ----------
+M('c13_empty_selection_is_a_selection', 'C13', (TR, "        if fixed_species:\n", "        if fixed_species is not None:\n"))
+M('c14_zero_charge_replaced', 'C14', (ME, "        temperature = self.trajectory.metadata['temperature']\n        tracer_diff = self.tracer_diffusivity(dimensions=dimensions)\n        tracer_conduc = (\n", "        z_ion = z_ion or 1\n        temperature = self.trajectory.metadata['temperature']\n        tracer_diff = self.tracer_diffusivity(dimensions=dimensions)\n        tracer_conduc = (\n"))
+M('c16_from_cache_normalises_ones', 'C16', (TR, "            obj = pickle.load(f)\n        return obj\n", "            obj = pickle.load(f)\n        obj.coords[obj.coords == 1] = 0\n        return obj\n"))
+M('c11_distances_rounded_8', 'C11', (R, "        rdf = np.digitize(dists, bins, right=True)\n", "        rdf = np.digitize(dists.round(8), bins, right=True)\n"))
+M('c12_distances_float32', 'C12', (CO, "                dists = lattice.get_all_distances(a, b)\n", "                dists = lattice.get_all_distances(a, b).astype(np.float32)\n"))
+M('c05_direct_hoppers_skipped', 'C05,C04', (J, "    for events in atom_events:\n        fromevent = None\n", "    for events in atom_events:\n        if not (events['destination site'] == -1).any():\n            continue\n        fromevent = None\n"))
